@@ -156,6 +156,45 @@ for _n, _v, _o, _nw in [
     register('C01', _cmt_probe(_n, _v, _o, _nw))
 
 
+# fixed shapes without a mask (no open finding): features a random schema only sometimes has, exercised on every run
+def _p_enum_prefix_items():
+    T = [M.TypeDef('io', 'enum', items=['input_output', 'input', 'output']),
+         M.TypeDef('hand', 'enum', items=['left', 'left_handed', 'right_handed', 'right']),
+         M.TypeDef('mm', 'enum', items=['mm', 'm', 'mmm'])]
+    s = M.Schema('pr_enpfx', T, [M.Entity('e', attrs=[M.Attr('a0', M.NAMED('io')), M.Attr('a1', M.NAMED('hand')), M.Attr('a2', M.NAMED('mm')),
+                                                      M.Attr('a3', M.AGG('LIST', M.NAMED('io'), 0, None))])])
+    insts = []
+    k = 1
+    for io in ('INPUT_OUTPUT', 'INPUT', 'OUTPUT'):
+        for hand in ('LEFT', 'LEFT_HANDED', 'RIGHT_HANDED', 'RIGHT'):
+            mm = ('MM', 'M', 'MMM')[k % 3]
+            insts.append(Inst(k, [('E', [('enum', io), ('enum', hand), ('enum', mm), ('agg', [('enum', 'INPUT'), ('enum', io), ('enum', 'OUTPUT')])])]))
+            k += 1
+    return s, insts
+
+
+register('C01', Probe('enumeration items that are prefixes of other items', _p_enum_prefix_items))
+
+
+def _p_select_chain_members():
+    T = [M.TypeDef('ratio', 'simple', base=M.REAL()), M.TypeDef('pos_ratio', 'simple', base=M.NAMED('ratio')),
+         M.TypeDef('tiny_ratio', 'simple', base=M.NAMED('pos_ratio')), M.TypeDef('label', 'simple', base=M.STR()),
+         M.TypeDef('label2', 'simple', base=M.NAMED('label')),
+         M.TypeDef('spec_first', 'select', members=['tiny_ratio', 'pos_ratio', 'ratio', 'label2', 'label']),
+         M.TypeDef('base_first', 'select', members=['label', 'label2', 'ratio', 'pos_ratio', 'tiny_ratio'])]
+    s = M.Schema('pr_selch', T, [M.Entity('e', attrs=[M.Attr('a0', M.NAMED('spec_first')), M.Attr('a1', M.NAMED('base_first')),
+                                                      M.Attr('a2', M.AGG('LIST', M.NAMED('spec_first'), 0, None))])])
+    vals = [('typed', 'RATIO', ('real', -0.25, '-0.25')), ('typed', 'POS_RATIO', ('real', 0.5, '0.5')), ('typed', 'TINY_RATIO', ('real', 0.125, '0.125')),
+            ('typed', 'LABEL', ('str', 'a')), ('typed', 'LABEL2', ('str', 'b'))]
+    insts = []
+    for i, v in enumerate(vals):
+        insts.append(Inst(i + 1, [('E', [v, vals[(i + 1) % len(vals)], ('agg', [vals[(i + 2) % len(vals)], v])])]))
+    return s, insts
+
+
+register('C01', Probe('select listing a defined type together with the types it renames', _p_select_chain_members))
+
+
 def _p_select_secondary_super():
     s = M.Schema('pr_sel2nd', [M.TypeDef('label', 'simple', base=M.STR()), M.TypeDef('sel1', 'select', members=['label', 'q'])],
                  [M.Entity('p', attrs=[M.Attr('x', M.INT())]),
